@@ -193,6 +193,48 @@ theorem C16_full_holds : C16_full := by
   | errLarge => left; unfold Key; rw [hv]
   | errKeyLen => left; unfold Key; rw [hv]
 
+/-! non-vacuity: concrete instances that satisfy the hypotheses of the main theorems -/
+
+/-- an accepted tuple: both end-to-end theorems apply to it -/
+example : ∃ key, Key [0x70] [0x73] 16 1 1 64 = .ok key ∧ scryptSpec true [0x70] [0x73] 16 1 1 64 = some key :=
+  scrypt_key_eq_rfc7914 _ _ 16 1 1 64 (by decide) (by decide)
+
+example : (∃ key, Key [] [] 2 1 1 1 = .ok key ∧ key.length = 1 ∧ (1 : Int) ≤ 1) ∨ Key [] [] 2 1 1 1 = .err :=
+  key_total [] [] 2 1 1 1 (by decide)
+
+/-- the error side of the dichotomy is inhabited too (keyLen = 0, N = MinInt, uint64-wrapping r·p) -/
+example : Key [] [] 2 1 1 0 = .err ∧ Key [] [] (-2 ^ 63) 1 1 32 = .err ∧ Key [] [] 2 (2 ^ 32) (2 ^ 32) 32 = .err := by
+  refine ⟨?_, ?_, ?_⟩ <;> (unfold Key; rfl)
+
+example : Accepted 1024 8 16 64 := (validate_accept_iff (by decide)).1 (by decide)
+
+example : 1024 * (8 : Int) ≤ 2 ^ 56 - 1 ∧ wrap64 (wrap64 (32 * 1024) * 8) = 32 * 1024 * 8 :=
+  ⟨(accepted_of_validate (n := 1024) (r := 8) (p := 16) (k := 64) (by decide) (by decide)).nr,
+   (validate_no_overflow (n := 1024) (r := 8) (p := 16) (k := 64) (by decide) (by decide)).2.2.2.2.2.1⟩
+
+/-- flat memory of the size Key allocates for r = 1, N = 2: the refinement theorems apply -/
+example : ∃ xy', blockMixGo (Array.replicate 64 0) ⟨0, 64⟩ ⟨32, 32⟩ 1 = some xy' ∧ xy'.size = 64 ∧
+    (∀ idx, ¬ (32 ≤ idx ∧ idx < 32 + 32 * 1) → rdw xy' idx = rdw (Array.replicate 64 0) idx) ∧
+    blocksOf xy' 32 (2 * 1) = blockMixRfc' (blocksOf (Array.replicate 64 0) 0 (2 * 1)) := by
+  have := blockMixGo_refine (Array.replicate 64 0) ⟨0, 64⟩ ⟨32, 32⟩ 1 (by decide) (by decide) (by simp) (by decide)
+    (by simp) (by decide)
+  simpa using this
+
+example : Sized ⟨Array.replicate 128 0, Array.replicate (2 ^ 1 * (32 * 1)) 0, Array.replicate 64 0⟩ 0 1 (2 ^ 1) :=
+  ⟨by simp, by simp, by simp⟩
+
+example : ∃ m', smixGo ⟨Array.replicate 128 7, Array.replicate (2 ^ 1 * (32 * 1)) 0, Array.replicate 64 0⟩ 0 1 (2 ^ 1) = some m' :=
+  let ⟨m', h, _⟩ := smixGo_refine ⟨Array.replicate 128 7, Array.replicate (2 ^ 1 * (32 * 1)) 0, Array.replicate 64 0⟩
+    0 1 1 (by decide) (by decide) (by decide) ⟨by simp, by simp, by simp⟩
+  ⟨m', h⟩
+
+example : smixI (2 ^ 1) [default, default] = some (romixRfc (2 ^ 1) [default, default]) := smixI_eq_rfc 1 (by decide) _
+
+example : ∃ out, pbkdf2Std [1] [2] 1 33 = some out ∧ out.length = 33 :=
+  pbkdf2Std_some [1] [2] 1 33 (by decide) (by decide)
+
+example : ∃ m, 1 ≤ m ∧ (1024 : Int) = ((2 ^ m : Nat) : Int) := andPred_pow2 (by decide) (by decide)
+
 /-- non-vacuity -/
 example : validate 1024 8 16 64 = .accept := by decide
 example : validate 6 1 1 32 = .errN ∧ validate 2 0 1 32 = .errRP ∧ validate 2 1 1 0 = .errKeyLen := by decide
